@@ -37,10 +37,10 @@ PROPS = {
                           "exclude_equiv_points in 3-D, the exclusion loops for every processing order; GridTetra/GridTrigonal splitting as a state "
                           "machine with exact integer volumes and barycentric sign tests) + replay of a seeded sample of the TLC states on the real "
                           "classes (comparison up to symmetry) + TLC validation of recorded calls, refinement chains and real 3-D run() executions",
-                text="TLC checks, for every group of the catalogue and every grid size inside the constants (quick: n <= 3 loops / n <= 4 table; "
-                     "thorough: 4 / 6), that the stars partition the grid, the retained weights are |star|/Ntot, non-negative and sum to one and that "
+                text="TLC checks, for every group of the catalogue and every grid size inside the constants (quick: n <= 3 for the loop model of 20 groups, n <= 4 for "
+                     "the table of all groups; thorough: 4 / 6, all groups), that the stars partition the grid, the retained weights are |star|/Ntot, non-negative and sum to one and that "
                      "the images cover each grid point exactly once; for ONE refinement step of a level-0 list (adpt_mesh 2 and 3, also through "
-                     "non-periodic directions, one or two refined points; quick: 14 groups, thorough: all) that the sub-cells tile the refined cell, "
+                     "non-periodic directions, one or two refined points; quick: 12 groups, thorough: all) that the sub-cells tile the refined cell, "
                      "the total weight is kept and merging of equivalent points is lossless for every processing order; for tetrahedral grids that the "
                      "five starting tetrahedra tile the cell (trigonal wedge, 60 and 120 degrees: positive non-overlapping volumes, weights sum to "
                      "one), that every split keeps volume and weight with weight proportional to volume and children tiling the parent, and that the "
@@ -65,8 +65,8 @@ DIV_INVS = ["InitialWeight", "TotalWeightKept", "NonNegative", "ParentsDead", "S
             "NoDuplicates", "NoMergeWithoutSymmetry", "ZoneTiled"]
 EXCL_INVS = ["WellFormed", "LoopEqualsDeclarative", "WeightKept", "Lossless", "NewPointsUnique", "OldPointsStay"]
 TET_INVS = ["Embedding", "Positive", "VolumeKept", "WeightKept", "WeightByVolume", "Tiling", "SplitsOK", "ThresholdsMet", "EqualsLoops", "NoStall"]
-QUICK_DIV_NAMES = ["cub_Oh", "cub_T", "tet_D4h", "tet_S4", "tet_4p", "ort_D2h", "ort_mM2", "ort_C1", "hex_D6h", "hex_C3vx", "hex_6p",
-                   "bcc_Oh", "fcc_Oh", "rho_D3d"]
+QUICK_DIV_NAMES = ["cub_Oh", "cub_T", "tet_D4h", "tet_S4", "ort_D2h", "ort_mM2", "ort_C1", "hex_D6h", "hex_C3vx", "bcc_Oh", "fcc_Oh", "rho_D3d"]
+QUICK_LOOP_NAMES = QUICK_DIV_NAMES + ["tet_4p", "hex_6p", "cub_OhTR", "ort_TR", "hex_C3TR", "cub_4p32p", "tet_C4v", "hex_D3d"]
 INFO = {}          # literal differences from today's code, exception classes, ... (information only)
 
 
@@ -82,9 +82,9 @@ def invs(names):
     return "".join(f"INVARIANT {i}\n" for i in names)
 
 
-def cfg_grid(nmax, loop):
+def cfg_grid(nmax, loop, names=None):
     extra = ["EqualsDeclarative", "LoopConserves"] if loop else []
-    return (f"SPECIFICATION Spec\nCONSTANTS\n  NMAX = {nmax}\n  Names <- AllNames\n  SymSet = {{TRUE, FALSE}}\n" +
+    return (f"SPECIFICATION Spec\nCONSTANTS\n  NMAX = {nmax}\n" + (f"  Names = {tset(names)}\n" if names else "  Names <- AllNames\n") + "  SymSet = {TRUE, FALSE}\n" +
             invs(GRID_INVS + extra) + "CHECK_DEADLOCK FALSE\n")
 
 
@@ -276,7 +276,7 @@ class GridRejected(Exception):
     pass
 
 
-def replay_divide(rep, st, rng, nrep, usable, ntile):
+def replay_divide(rep, st, rng, nrep, usable, ntile, fallback):
     states = [s for s in ftable.dump_states(st) if s["pc"] == "done" and s["grp"] in usable]
     if not states:
         raise MachineryError("no finished refinement step in the dump")
@@ -284,6 +284,7 @@ def replay_divide(rep, st, rng, nrep, usable, ntile):
     rng.shuffle(states)
     counts = dict(merged=0, two_parents=0, anisotropic=0, ndiv3=0, nosym=0, image_tiling=0)
     ident = [((1, 0, 0), (0, 1, 0), (0, 0, 1))]
+    nfb = 0
     for s in states[:nrep]:
         grp, n, per, ndiv, sym, order = s["grp"], tuple(s["n"]), tuple(s["per"]), s["ndiv"], s["sym"], tuple(s["ord"])
         exp0, exp1 = W.spec_kl(s["kl0"]), W.spec_kl(s["kl1"])
@@ -296,35 +297,53 @@ def replay_divide(rep, st, rng, nrep, usable, ntile):
         counts["anisotropic"] += not all(per)
         counts["ndiv3"] += ndiv == 3
         counts["nosym"] += not sym
+        mats = W.mats_of(grp) if sym else ident
         try:
-            ok, res = guarded(rep, "divide+exclude_equiv_points", info, refine_steps, grp, n, per, ndiv, sym, [order], 1)
+            ok, res = guarded(rep, "Grid.get_K_list", info, refine_steps, grp, n, per, ndiv, sym, [], 1)
+            if not ok:
+                continue
+            geo, (got0,) = res
+            gw0, gdup0 = W.class_weights(got0, geo.U, mats)
+            if gw0 != W.class_weights(exp0, geo.U, mats)[0] or gdup0:
+                rep.violation("Grid.get_K_list:before_refinement", dict(info, expected=exp0, got=got0))
+                continue
+            # the points the specification refines, found in the real list by their class (the real list may be in another
+            # order and hold other members of the orbits)
+            keys0 = [(lev, W.orbit_rep(c, geo.U, mats)) for c, lev, _ in got0]
+            order_real = [keys0.index((exp0[o - 1][1], W.orbit_rep(exp0[o - 1][0], geo.U, mats))) + 1 for o in order]
+            ok, res = guarded(rep, "divide+exclude_equiv_points", info, refine_steps, grp, n, per, ndiv, sym, [order_real], 1)
+            if not ok:
+                continue
+            geo, (got0, got1) = res
         except W.NonIntegral as ex:
             rep.violation("divide:non-integral projection", dict(info, error=str(ex)))
             continue
         except GridRejected as ex:
             rep.violation("Grid:compatible_grid_rejected", dict(info, exception=str(ex)))
             continue
-        if not ok:
-            continue
-        geo, (got0, got1) = res
-        mats = W.mats_of(grp) if sym else ident
-        if W.class_weights(got0, geo.U, mats)[0] != W.class_weights(exp0, geo.U, mats)[0]:
-            rep.violation("Grid.get_K_list:before_refinement", dict(info, expected=exp0, got=got0))
-            continue
-        gw, gdup = W.class_weights(got1, geo.U, mats)
-        ew, _ = W.class_weights(exp1, geo.U, mats)
-        if gw != ew or (sym and gdup) or any(f < 0 for _, _, f in got1):
-            rep.violation("divide+exclude_equiv_points:" + ("symmetry" if sym else "plain"),
-                          dict(info, classes_with_two_live_points=gdup, before=exp0, expected=exp1, got=got1))
+        if sorted(got0) != sorted(exp0):
+            # other members of the orbits are retained: the refined list need not be equivalent to the specification's one
+            # (cells are mapped to cells only by some groups); the property clauses are evaluated on the real step by TLC
+            note("refinement:other_initial_list_than_the_specification_(clauses_checked_by_TLC)")
+            if nfb < 60:
+                nfb += 1
+                fallback.append(("divide+exclude_equiv_points", info, refine_record(grp, geo, sym, got0, order_real, got1, "replay")))
+            good = True
         else:
-            if got1 != exp1:
+            gw, gdup = W.class_weights(got1, geo.U, mats)
+            ew, _ = W.class_weights(exp1, geo.U, mats)
+            good = not (gw != ew or (sym and gdup) or any(f < 0 for _, _, f in got1))
+            if not good:
+                rep.violation("divide+exclude_equiv_points:" + ("symmetry" if sym else "plain"),
+                              dict(info, classes_with_two_live_points=gdup, before=exp0, expected=exp1, got=got1))
+            elif got1 != exp1:
                 note("refinement:list_differs_literally")
-            # the image cells of the real list tile the zone (groups mapping cells to cells)
-            if counts["image_tiling"] < ntile and W.box_preserving(W.mats_of(grp)):
-                counts["image_tiling"] += 1
-                why = geo.images_tile(got1, mats)
-                if why:
-                    rep.violation("refinement:image_cells_do_not_tile", dict(info, why=why, got=got1))
+        # the image cells of the real list tile the zone (groups mapping cells to cells)
+        if good and counts["image_tiling"] < ntile and W.box_preserving(W.mats_of(grp)):
+            counts["image_tiling"] += 1
+            why = geo.images_tile(got1, mats)
+            if why:
+                rep.violation("refinement:image_cells_do_not_tile", dict(info, why=why, got=got1))
         if len(rep.cov["samples"]) < 4 and sym and len(exp1) < nraw:
             rep.sample(dict(fn="divide+exclude_equiv_points", **info, after=exp1[:8]))
     vacuity(rep, "refinement replay", counts, list(counts))
@@ -406,7 +425,7 @@ def compare_tets(rep, site, info, Ks, exp, metric, tv2, ts2, fallback):
             note(f"{site}:list_differs_literally")
         return
     note(f"{site}:other_tetrahedra_than_the_specification_(clauses_checked_by_TLC)")
-    if len(fallback) < 40:
+    if sum(1 for f_ in fallback if f_[2]["fn"] == "tgrid") < 40:
         fallback.append((site, info, tgrid_record(metric, tv2, ts2, got)))
 
 
@@ -508,7 +527,7 @@ def check_split(rep, info, K, p, kids, exp_children, metric, ndiv, refine, fallb
         return
     if exp_children is not None:
         note("KpointBZtetra.divide:other_children_than_the_specification_(clauses_checked_by_TLC)")
-    if len(fallback) < 40:
+    if sum(1 for f_ in fallback if f_[2]["fn"] == "tsplit") < 40:
         fallback.append(("KpointBZtetra.divide", info, dict(fn="tsplit", metric=metric, S=S_T, M=M_T, NS=4, ndiv=ndiv, refine=refine, parent=tl(p),
                                                            out=[tl(c) for c in got])))
 
@@ -624,7 +643,7 @@ def record_calls(rep, rng, thorough, usable, tag, recs):
     names = sorted(usable)
     nmax = 6 if thorough else 5
     # ---- Grid.get_K_list
-    for _ in range(160 if thorough else 30):
+    for _ in range(160 if thorough else 24):
         grp = rng.choice(names)
         mats = W.mats_of(grp)
         n = tuple(rng.randint(1, nmax) for _ in range(3))
@@ -649,7 +668,7 @@ def record_calls(rep, rng, thorough, usable, tag, recs):
     # ---- KpointBZparallel.divide on random K-points (levels 0 and 1, anisotropic meshes)
     ndiv_n = 0
     tries = 0
-    while ndiv_n < (240 if thorough else 40) and tries < 20000:
+    while ndiv_n < (240 if thorough else 30) and tries < 20000:
         tries += 1
         grp = rng.choice(names)
         pg = W.pointgroup(grp)
@@ -701,7 +720,7 @@ def record_calls(rep, rng, thorough, usable, tag, recs):
     # ---- exclude_equiv_points on random lists with forced equivalences, old and new points
     nex = 0
     tries = 0
-    while nex < (200 if thorough else 36) and tries < 20000:
+    while nex < (200 if thorough else 30) and tries < 20000:
         tries += 1
         grp = rng.choice(names)
         pg = W.pointgroup(grp)
@@ -758,7 +777,7 @@ def record_calls(rep, rng, thorough, usable, tag, recs):
     #      refined again, exclusion against old points of level >= 1
     nch = 0
     tries = 0
-    while nch < (40 if thorough else 8) and tries < 2000:
+    while nch < (40 if thorough else 6) and tries < 2000:
         tries += 1
         grp = rng.choice(names)
         mats = W.mats_of(grp)
@@ -809,7 +828,7 @@ def record_calls(rep, rng, thorough, usable, tag, recs):
     nrun = 0
     wd = workdir(tag + "_run")
     for grp, n, ndiv in [("cub_Oh", (2, 2, 2), 2), ("ort_mM2", (2, 1, 2), 2), ("tet_C4v", (2, 2, 1), 2), ("bcc_Oh", (2, 2, 2), 2),
-                         ("hex_D3d", (1, 1, 2), 3), ("rho_D3d", (1, 1, 1), 3), ("ort_C1", (1, 2, 1), 2), ("fcc_Oh", (1, 1, 1), 2)][:8 if thorough else 5]:
+                         ("hex_D3d", (1, 1, 2), 3), ("rho_D3d", (1, 1, 1), 3), ("ort_C1", (1, 2, 1), 2), ("fcc_Oh", (1, 1, 1), 2)][:8 if thorough else 4]:
         if grp not in usable or "run() in 3-D" in W.SKIPPED:
             continue
         mats = W.mats_of(grp)
@@ -842,7 +861,7 @@ def record_calls(rep, rng, thorough, usable, tag, recs):
     ntet = 0
     pools = {}
     tries = 0
-    while ntet < (120 if thorough else 20) and tries < 20000:
+    while ntet < (120 if thorough else 16) and tries < 20000:
         tries += 1
         metric = rng.choice(["cub", "tet", "ort"])
         if metric not in pools:
@@ -876,7 +895,7 @@ def record_calls(rep, rng, thorough, usable, tag, recs):
         recs += [r for _, _, r in fb]
         rep.case(("rec-tsplit", metric, p, ndiv, refine))
     # ---- GridTetra / GridTrigonal through the constructor with random thresholds
-    for _ in range(24 if thorough else 8):
+    for _ in range(24 if thorough else 6):
         metric = rng.choice(["cub", "tet", "ort", "hex", "hex120"])
         f = W.gram_scale(metric, W.tetra_system(metric).recip_lattice)
         tv2 = 2 * rng.randint(start_vol6(metric) // 5, start_vol6(metric) * 2) + 1
@@ -1026,7 +1045,7 @@ def _check(rep, tier, tag):
     else:
         jobs = {
             "groups": ("MC_KMeshGroups.tla", groups_cfg, True),
-            "grid_loop": ("MC_KMeshGrid.tla", cfg_grid(3, True), False),
+            "grid_loop": ("MC_KMeshGrid.tla", cfg_grid(3, True, QUICK_LOOP_NAMES), False),
             "grid_tab": ("MC_KMeshGridTab.tla", cfg_grid(4, False), True),
             "divide": ("MC_KMeshDivide.tla", cfg_divide(QUICK_DIV_NAMES, [111, 211, 221, 222], [111, 110, 100], [2, 3], 3,
                                                         ["cub_Oh", "cub_T", "tet_D4h", "tet_S4", "ort_D2h", "ort_mM2", "rho_D3d"], False, False), True),
@@ -1089,7 +1108,7 @@ def _check(rep, tier, tag):
         usable = set()
     else:
         optional("replay of Grid.get_K_list", replay_grid, rep, res["grid_tab"], rng, ngrid, usable)
-        optional("replay of refinement steps", replay_divide, rep, res["divide"], rng, ndivr, usable, ntile)
+        optional("replay of refinement steps", replay_divide, rep, res["divide"], rng, ndivr, usable, ntile, fallback)
     optional("replay of tetrahedral grids", replay_tetra, rep, res["tetra"], rng, nsplit, fallback)
 
     # ---------------- code -> spec
